@@ -269,6 +269,48 @@ func c05(x *mon.Ctx) {
 		w.CrlHdr = map[string][]string{world.HdrPckCrl: {world.IssuerChain(other.Inter, other.Root)}}
 		add(w, "pck-crl-and-issuer-chain-from-lookalike-pki", "both-crls-lookalike", "reject", on)
 	}
+	// ---- CA key roll-over: a second "Intel SGX PCK Platform CA" certificate with another key, genuinely issued by the trusted
+	//      root. Its CRL, served with its own (valid) issuer chain, says nothing about certificates issued under the first key.
+	{
+		ca2 := world.Issue(world.InterTemplate(world.CNPlatform, world.Far), base.PKI.Root, world.NewKey())
+		for name, rev := range map[string][]*big.Int{"clean": nil, "lists-unrelated": {big.NewInt(1)}, "lists-the-leaf": {base.PKI.Leaf.Cert.SerialNumber}} {
+			w := base.Clone()
+			w.PckCRL = world.MkCRL(ca2, this, next, rev)
+			w.CrlHdr = map[string][]string{world.HdrPckCrl: {world.IssuerChain(ca2, base.PKI.Root)}}
+			add(w, "pck-crl-of-rolled-over-ca-key", name, "reject", on)
+			w2 := base.Clone()
+			w2.PckCRL = world.MkCRL(ca2, this, next, rev)
+			add(w2, "pck-crl-of-rolled-over-ca-key", name+"/genuine-header", "reject", on)
+		}
+	}
+	// ---- identifiers are not keys: CRLs signed by the right key whose authorityKeyIdentifier differs from the one in the
+	//      certificates they govern (the CA certificate was re-issued for the same key with another subjectKeyIdentifier)
+	{
+		otherID := func(c *world.Cert) *world.Cert {
+			alt := *c.Cert
+			alt.SubjectKeyId = []byte{0x42, 0x42, 0x42, 0x42, 0x42, 0x42, 0x42, 0x42, 0x42, 0x42, 0x42, 0x42, 0x42, 0x42, 0x42, 0x42, 0x42, 0x42, 0x42, 0x42}
+			return &world.Cert{Cert: &alt, Key: c.Key}
+		}
+		for tname, serial := range cw.targets {
+			for _, revoked := range []bool{true, false} {
+				w := base.Clone()
+				var rev []*big.Int
+				if revoked {
+					rev = []*big.Int{big.NewInt(3), serial, big.NewInt(4)}
+				}
+				if tname == "leaf" {
+					w.PckCRL = world.MkCRL(otherID(base.PKI.Inter), this, next, rev)
+				} else {
+					w.RootCRL = world.MkCRL(otherID(base.PKI.Root), this, next, rev)
+				}
+				if revoked {
+					add(w, "crl-with-other-authority-key-id/revoked", tname, "reject", on)
+				} else {
+					add(w, "crl-with-other-authority-key-id/not-revoked", tname, "", on)
+				}
+			}
+		}
+	}
 	// ---- endpoint outcomes
 	pckURL := world.PckCrlURL("platform")
 	garbage := []byte("\x30\x82 garbage, not DER")
@@ -425,6 +467,9 @@ func c05(x *mon.Ctx) {
 	x.Require("pck-crl-signed-by", 0, 6, 6)
 	x.Require("pck-crl-and-issuer-chain-from-lookalike-pki", 0, 3, 3)
 	x.Require("root-crl-signed-by", 0, 6, 6)
+	x.Require("pck-crl-of-rolled-over-ca-key", 0, 6, 6)
+	x.Require("crl-with-other-authority-key-id/revoked", 0, 4, 4)
+	x.Require("crl-with-other-authority-key-id/not-revoked", 4, 0, 4)
 	x.Require("pck-crl-endpoint", 0, 10, 10)
 	x.Require("root-crl-endpoint", 0, 10, 10)
 	x.Require("distribution-points", 6, 6, 12)
